@@ -222,4 +222,16 @@ theorem gen_untaintLoop_count_eq_dry (o : Oracle) (cs : List Node) :
         rw [hc, Int.add_zero]
         omega
 
+/-- **C07 in dry mode, model and source together (count)**: exactly `min(need, candidates the tracker holds at their turn)`. -/
+theorem C07_untaintLoop_count_exact_dry (o : Oracle) (cs : List Node) (k need : Nat) (tr : List String) :
+    ((untaintLoop o true k cs need tr).val.count : Int) =
+      min (need : Int) ((untaintOutcomesDry tr cs).countP (untaintOk true) : Nat) := by
+  have h1 := gen_untaintLoop_count_eq_dry o cs k need 0 tr
+  have h2 := C07_source_untaint_exact (0 + need) true (untaintOutcomesDry tr cs) 0 (by omega)
+  rw [h1, h2]; omega
+
+/-- Non-vacuity: tracker [b, a], candidates a, c, b, two wanted — a and b are handed back, c (never dry-tainted) is walked past. -/
+example : (untaintOutcomesDry ["b", "a"] [{ (default : Node) with name := "a" }, { (default : Node) with name := "c" },
+    { (default : Node) with name := "b" }]).countP (untaintOk true) = 2 := by decide
+
 end Esc.P
